@@ -67,6 +67,13 @@ def check(ctx, idx):
         kws["fit_intercept"] = False
     if ncls == 2 and rng.random() < 0.3:
         kws["precompute"] = rng.choice([True, False])
+    run_case(ctx, idx, X, y, ncls, bk, nm, alpha, kws, custom_U)
+
+
+def run_case(ctx, idx, X, y, ncls, bk, nm, alpha, kws, custom_U):
+    from pysensors.classification import SSPOC
+    rng = ctx.rng
+    nf = X.shape[1]
     centred = kws.get("fit_intercept", True)
     base = {"X": X.tolist(), "y": y.tolist(), "basis": bk, "n_modes": nm, "l1_penalty": alpha, "index": idx,
             "fit_kwargs": dict(kws)}
@@ -173,7 +180,20 @@ def check(ctx, idx):
                 "support": np.nonzero(s if s.ndim == 1 else np.sum(np.abs(s), axis=1))[0].tolist()}, limit=4)
 
 
+def corpus(ctx):
+    """minimised past failures first"""
+    import glob, json
+    for f in sorted(glob.glob(str(C.VERIF / "corpus" / "C10" / "*.json"))):
+        d = json.load(open(f))["case"]
+        X, y = np.array(d["X"], dtype=float), np.array(d["y"])
+        U = None if d.get("custom_U") is None else np.array(d["custom_U"], dtype=float if d["basis"] == "custom_float" else np.int64)
+        ctx.count("corpus")
+        run_case(ctx, -1, X, y, len(set(y.tolist())), d["basis"], d["n_modes"], d["l1_penalty"],
+                 {k: v for k, v in d.get("fit_kwargs", {}).items() if k != "prefit_basis"}, U)
+
+
 def run(ctx: C.Ctx):
+    corpus(ctx)
     for idx in range(ctx.scale(70, 700)):
         check(ctx, idx)
 
